@@ -110,4 +110,16 @@ theorem C01_two_nodes_serial (pad : Pad) (es : List Event) (hwf : ∀ e ∈ es, 
     ∀ e ∈ es, decode e.kind (encode pad e) = .ok e :=
   Ross.two_nodes_serial pad es hwf nodeA hA hlog rs fls hrs hfl b handlers segs hn hok hs
 
+/-! non-vacuity (kernel-evaluated): node 5 sends an ack to node 9, an ack to itself (looped back, not transmitted) and a
+data event to everybody over USART; node 9, with an own-address handler (token 0) and a capture-all handler (token 1),
+receives exactly the two routed events, each once per handler, in order -/
+example :
+    let es : List Event := [.ack 9 5, .ack 5 5, .data 0xffff 5 2 [1, 2]]
+    let pad : Pad := ⟨0, 0, 0⟩
+    let s : List ByteItem := (wireOf (List.flatMap usartBodies (List.map (encode pad) (List.filter (routed 5) es)))).map .byte
+    let rx : Proto := { addr := 9, handlers := [(0, ⟨0, false, []⟩), (1, ⟨1, true, []⟩)],
+                        rxQueue := List.map toRx (usartPolls LinkSt.init s), txQueue := [], log := [] }
+    (callsOf rx.tickAll.log).map (fun c => (c.1, c.2.data)) =
+      [(0, [0, 3, 0, 5]), (1, [0, 3, 0, 5]), (0, [0, 4, 0, 5, 0, 2, 1, 2]), (1, [0, 4, 0, 5, 0, 2, 1, 2])] := by decide
+
 end Ross.Props
